@@ -7,7 +7,7 @@ use std::collections::BTreeMap;
 
 pub fn monitor() -> Monitor {
   Monitor { id: "C10",
-    rule: "every RING index r of depths <= 8 (quick) / <= 10 (thorough): from_ring(r) in range, to_ring(from_ring(r)) == r (=> bijection on the exhaustive depths), projected centre of NESTED cell from_ring(r) == reference centre of RING cell r (integer-sqrt RING decode), ordering of consecutive indices (latitude non-increasing, longitude increasing within a ring, in [0,2pi)), ring::center == Layer::center; deeper depths up to 29: ring-boundary classes (first/second/quarter/last cells of rings 1..4, nside-2..nside+2, 2nside-1..2nside+1, 3nside-2..3nside+2, 4nside-4..4nside-1 and random rings) and random cells, each together with its successor r+1. Non-trivial = index that is first/last of its ring or on a quarter boundary, or in a polar-cap ring, or in a transition ring (i in {nside, 3nside}) (reference classification).",
+    rule: "every RING index r of depths <= 8 (quick) / <= 11 (thorough): from_ring(r) in range, to_ring(from_ring(r)) == r (=> bijection on the exhaustive depths), projected centre of NESTED cell from_ring(r) == reference centre of RING cell r (integer-sqrt RING decode), ordering of consecutive indices (latitude non-increasing, longitude increasing within a ring, in [0,2pi)), ring::center == Layer::center; deeper depths up to 29: ring-boundary classes (first/second/quarter/last cells of rings 1..4, nside-2..nside+2, 2nside-1..2nside+1, 3nside-2..3nside+2, 4nside-4..4nside-1 and random rings) and random cells, each together with its successor r+1. Non-trivial = index that is first/last of its ring or on a quarter boundary, or in a polar-cap ring, or in a transition ring (i in {nside, 3nside}) (reference classification).",
     assumptions: &["reference RING decode uses exact integer arithmetic (u128, integer square root)", "reference cell centres in the projection plane"],
     run, replay }
 }
@@ -15,8 +15,8 @@ pub fn monitor() -> Monitor {
 fn run(ctx: &mut Ctx, extra: &mut BTreeMap<String, String>) {
   let seed = ctx.seed;
   let small = ctx.pass != "release";
-  let exh: u8 = if ctx.thorough { if small { 7 } else { 10 } } else if small { 5 } else { 8 };
-  let n_rings = if ctx.thorough { if small { 300 } else { 6000 } } else if small { 60 } else { 600 };
+  let exh: u8 = if ctx.thorough { if small { 7 } else { 11 } } else if small { 5 } else { 8 };
+  let n_rings = if ctx.thorough { if small { 300 } else { 60000 } } else if small { 60 } else { 600 };
   extra.insert("exhaustive_up_to_depth".into(), format!("{}", exh));
   let shards = 16u64;
   run_sharded(ctx, shards as usize, |c, k| {
